@@ -14,6 +14,9 @@ TABLE = {
   "C12": ("Lean 4 theorems over an exact Rat model of the midpoint normalisation (constants regenerated from source) + exact-rational correspondence with SingleMetric/MultiMetricMidpointInfo",
           "Proved for all value lists, failure masks and objectives: inverse law, strict order law in every branch (incl. degenerate and skip), exact span [-0.1,0.1], variance scale/floor, lie = worst value, no zero denominators, column-wise multi-metric wrapper. Tied to the code by regenerated constants and by exact-rational differential runs.",
           "Not modelled: IEEE rounding (conditioning-aware tolerance), overflow beyond 1e150.", "3/C12"),
+  "C14": ("Lean 4 theorems about phase selectors that are re-translated from the Python source on every run (mini-Python -> Lean translator), plus an exact list model of the six filters; differential runs on threshold-dense integer grids",
+          "Proved for all integer budgets/counts (incl. budget < failures, zero open suggestions): no selector divides by zero, the generated multi-metric selector equals (rfl) the documented stage table, stages/search/Parzen phases never move backwards as observations arrive, the fraction handed on lies in [0,1], weights in [0.1,0.9] summing to 1, epsilon in [0.1,0.9], 0<gamma<1; filters: equal lengths, right columns, violators dropped (GP) or overwritten by the lie (Parzen). Selectors are regenerated from source so the theorems are re-checked against the current code.",
+          "Not proved: agreement of float division with exact rationals at thresholds (argued for denominators < 1e14); Halton draw is an oracle; View wiring is exercised by C01/C06.", "3/C14"),
 }
 
 
